@@ -32,6 +32,7 @@ type c14FlushStorm struct {
 	Producers   int    `json:"producers"`
 	Unreachable bool   `json:"sink_unreachable,omitempty"`
 	CloseDuring bool   `json:"close_during,omitempty"` // Close while the flushers are still running
+	Dests       []int  `json:"dests,omitempty"`        // extra destinations (see c14Dests)
 }
 
 func c14FlushStormOne(ctx *Ctx, fs *c14FlushStorm) {
@@ -46,7 +47,11 @@ func c14FlushStormOne(ctx *Ctx, fs *c14FlushStorm) {
 		proto = m3.Binary
 	}
 	m3.VerifSetYield((func(int))(nil))
-	r, err := m3.NewReporter(m3.Options{HostPorts: []string{addr}, Service: "svc", Env: "test", MaxQueueSize: fs.Cap, Protocol: proto})
+	hostports, live := c14Dests(addr, fs.Binary, fs.Dests)
+	for _, s := range live {
+		defer s.Close()
+	}
+	r, err := m3.NewReporter(m3.Options{HostPorts: hostports, Service: "svc", Env: "test", MaxQueueSize: fs.Cap, Protocol: proto})
 	if err != nil {
 		fatal(err)
 	}
@@ -141,7 +146,11 @@ func c14FlushStormOne(ctx *Ctx, fs *c14FlushStorm) {
 		}
 	}
 	guard("Flush after Close", r.Flush)
-	ctx.Case(fs, "", "storm-flush-heavy", hashOf(fs))
+	cls := "storm-flush-heavy"
+	if len(fs.Dests) > 0 {
+		cls += fmt.Sprintf(" dests=%d", 1+len(fs.Dests))
+	}
+	ctx.Case(fs, "", cls, hashOf(fs))
 	switch {
 	case len(panics) > 0:
 		ctx.Fail("no_panic", "flush-heavy storm: "+strings.Join(panics, "; "), fs, nil)
@@ -151,16 +160,167 @@ func c14FlushStormOne(ctx *Ctx, fs *c14FlushStorm) {
 		ctx.Fail("second_close_returns_error", fmt.Sprintf("flush-heavy storm: %d Close calls returned nil", nils), fs, nil)
 	default:
 		if leak := m3Leak(); leak != "" {
-			ctx.Fail("no_goroutine_left_after_close", "flush-heavy storm: goroutines of package m3 left:\n"+leak, fs, nil)
+			ctx.Fail("no_goroutine_left_after_close", "flush-heavy storm: goroutines of package m3 / its transports left after Close returned:\n"+c14Trim(leak), fs, nil)
 		}
 	}
 }
 
 func c14FlushStorms(ctx *Ctx) {
 	for k, nk := 0, ctx.N(6, 30); k < nk; k++ {
+		if c14Failed(ctx) {
+			return
+		}
 		r := ctx.R
 		fs := c14FlushStorm{Storm: true, FlushStorm: true, Seed: r.U64() % 1000000, Cap: []int{4096, 8, 64, 1, 512, 4096}[k%6], Binary: r.Chance(30),
 			Flushers: []int{4, 2, 6, 3}[k%4], Flushes: ctx.N(4000, 10000), Producers: 1 + k%3, Unreachable: k%3 == 2, CloseDuring: k%5 == 4}
+		if k%3 == 1 {
+			fs.Dests = [][]int{{1, 3}, {2}}[(k/3)%2]
+		}
 		c14FlushStormOne(ctx, &fs)
+	}
+}
+
+// ---------------------------------------------------------------------------
+// multi-destination sequences: "with the destination reachable, unreachable or
+// closed mid-run (send errors)" for a reporter with two or three HostPorts (the
+// multi-destination transport).  One goroutine reports and flushes `Rounds`
+// times, waiting (bounded, collection effort only) for the live sink to see
+// each batch so that every round is a datagram of its own; half-way the live
+// sink may be closed as well.  Then Close; "after Close has returned none of
+// the reporter's goroutines is left running" is checked on the goroutine dump
+// (package m3 and its transports), and every live destination must have
+// received only values that were reported, each at most once.
+
+type c14MultiDest struct {
+	Storm     bool   `json:"storm"`
+	MultiDest bool   `json:"multi_dest"`
+	Seed      uint64 `json:"seed"`
+	Binary    bool   `json:"binary,omitempty"`
+	Dests     []int  `json:"dests"` // extra destinations (see c14Dests)
+	Rounds    int    `json:"rounds"`
+	CloseSink bool   `json:"close_sink_midway,omitempty"`
+	Cap       int    `json:"cap"`
+}
+
+// c14Trim keeps the first goroutines of a dump.
+func c14Trim(dump string) string {
+	blks := strings.Split(dump, "\n\n")
+	if len(blks) <= 3 {
+		return dump
+	}
+	return fmt.Sprintf("%s\n\n... and %d more goroutines", strings.Join(blks[:3], "\n\n"), len(blks)-3)
+}
+
+func c14MultiDestOne(ctx *Ctx, md *c14MultiDest) {
+	sink := newM3Sink(md.Binary)
+	sink.Serve()
+	defer sink.Close()
+	hostports, live := c14Dests(sink.Addr(), md.Binary, md.Dests)
+	for _, s := range live {
+		s.Serve()
+		defer s.Close()
+	}
+	proto := m3.Compact
+	if md.Binary {
+		proto = m3.Binary
+	}
+	m3.VerifSetYield((func(int))(nil))
+	r, err := m3.NewReporter(m3.Options{HostPorts: hostports, Service: "svc", Env: "test", MaxQueueSize: md.Cap, Protocol: proto})
+	if err != nil {
+		fatal(err)
+	}
+	var panics []string
+	guard := func(what string, f func()) {
+		defer func() {
+			if e := recover(); e != nil {
+				panics = append(panics, fmt.Sprintf("%s: %v", what, e))
+			}
+		}()
+		f()
+	}
+	c := r.AllocateCounter("c", map[string]string{"k": "v"})
+	sinkOpen := true
+	for i := 0; i < md.Rounds && len(panics) == 0; i++ {
+		if md.CloseSink && i == md.Rounds/2 {
+			sink.Close()
+			sinkOpen = false
+		}
+		before := sink.Len()
+		guard("ReportCount", func() { c.ReportCount(int64(1000 + i)) })
+		guard("Flush", r.Flush)
+		for k := 0; sinkOpen && k < 200 && sink.Len() == before; k++ {
+			time.Sleep(250 * time.Microsecond)
+		}
+		if !sinkOpen {
+			time.Sleep(time.Millisecond)
+		}
+	}
+	nils := 0
+	hang := ""
+	done := make(chan struct{})
+	go func() {
+		defer close(done)
+		guard("Close", func() {
+			if r.Close() == nil {
+				nils++
+			}
+		})
+	}()
+	select {
+	case <-done:
+	case <-time.After(30 * time.Second):
+		hang = "Close did not return within 30 s:\n" + c14Trim(m3Stacks())
+	}
+	cls := fmt.Sprintf("multi-destination dests=%d", 1+len(md.Dests))
+	ctx.Case(md, "", cls, hashOf(md))
+	switch {
+	case len(panics) > 0:
+		ctx.Fail("no_panic", "multi-destination reporter: "+strings.Join(panics, "; "), md, nil)
+		return
+	case hang != "":
+		ctx.Fail("no_hang", hang, md, nil)
+		return
+	case nils != 1:
+		ctx.Fail("second_close_returns_error", fmt.Sprintf("multi-destination reporter: %d Close calls returned nil", nils), md, nil)
+		return
+	}
+	if leak := m3Leak(); leak != "" {
+		ctx.Fail("no_goroutine_left_after_close", fmt.Sprintf("reporter with %d HostPorts (extra destinations %v; 1, 2 = unreachable), %d rounds of ReportCount + Flush, then Close: after Close returned these goroutines of package m3 / its transports are still there:\n%s",
+			1+len(md.Dests), md.Dests, md.Rounds, c14Trim(leak)), md, nil)
+		return
+	}
+	time.Sleep(2 * time.Millisecond)
+	lists := [][]int64{}
+	if sinkOpen {
+		lists = append(lists, sink.Values())
+	}
+	for _, s := range live {
+		lists = append(lists, s.Values())
+	}
+	for _, got := range lists {
+		seen := map[int64]int{}
+		for _, v := range got {
+			if v == -1 {
+				continue
+			}
+			seen[v]++
+			if v < 1000 || v >= int64(1000+md.Rounds) || seen[v] > 1 {
+				ctx.Fail("delivered_values_were_reported", fmt.Sprintf("multi-destination reporter: a live destination received value %d %d time(s); values 1000..%d were reported once each", v, seen[v], 999+md.Rounds), md, nil)
+				return
+			}
+		}
+	}
+}
+
+func c14MultiDests(ctx *Ctx) {
+	for k, nk := 0, ctx.N(10, 60); k < nk; k++ {
+		if c14Failed(ctx) {
+			return
+		}
+		r := ctx.R
+		md := c14MultiDest{Storm: true, MultiDest: true, Seed: r.U64() % 1000000, Binary: k%3 == 2,
+			Dests:  [][]int{{1}, {2}, {1, 2}, {3}, {1, 3}, {2, 4}, {1, 1}, {4}, {2, 2}, {3, 1}}[k%10],
+			Rounds: r.Range(6, 14), CloseSink: k%4 == 3, Cap: []int{4096, 4, 64}[k%3]}
+		c14MultiDestOne(ctx, &md)
 	}
 }
